@@ -302,7 +302,7 @@ fn extract_source_map<R: Read>(
             if trim_comment.starts_with(SOURCE_MAP_URL) {
                 source_map_comment = Some(String::from(comment.text.as_str()));
                 let url = trim_comment.get(SOURCE_MAP_URL.len()..).unwrap();
-                source = decode_data_url(url)
+                source = decode_data_url(&without_data_url_parameters(url))
                     .map_err(Error::new)
                     .or_else(|_| {
                         let source_path = PathBuf::from(url);
@@ -342,6 +342,25 @@ fn extract_source_map<R: Read>(
         source,
         source_map_comment,
     }
+}
+
+/// `data:application/json;charset=utf-8;base64,...` (what most tools emit) is an inline map too: the
+/// decoder only knows the preamble without parameters
+fn without_data_url_parameters(url: &str) -> Cow<'_, str> {
+    const JSON_PREAMBLE: &str = "data:application/json;";
+    const BASE64_MARK: &str = ";base64,";
+    if url.starts_with(JSON_PREAMBLE) {
+        if let Some(mark) = url.find(BASE64_MARK) {
+            // the data starts after the first comma, which has to be the one of the mark
+            if url.find(',') == Some(mark + BASE64_MARK.len() - 1) {
+                return Cow::Owned(format!(
+                    "{JSON_PREAMBLE}base64,{}",
+                    &url[mark + BASE64_MARK.len()..]
+                ));
+            }
+        }
+    }
+    Cow::Borrowed(url)
 }
 
 pub fn generate_prefix_stmts(csi_methods: &CsiMethods) -> Vec<Stmt> {
